@@ -762,6 +762,8 @@ class Tr:
                 ctx, self.e(s.test), self.block(s.body, after, ctx), self.block(s.orelse, after, ctx)))
         if isinstance(s, ast.For):
             return self.with_after(rest, k, ctx, self.names([s]), lambda after: self.for_(s, after, ctx))
+        if isinstance(s, ast.While):
+            return self.with_after(rest, k, ctx, self.names([s]), lambda after: self.while_(s, after, ctx))
         if isinstance(s, ast.Try):
             return self.with_after(rest, k, ctx, self.names([s]), lambda after: self.try_(s, after, ctx))
         raise Untranslatable("statement %s" % type(s).__name__)
@@ -896,6 +898,31 @@ class Tr:
             st, st, S, els, ctx.err, brk, r, r if ctx.mode == "fun" else "(RetS %s)" % r,
             n, st, st, S, ctx.handler(n), ctx.err)
         return self.bind(ctx, "(p2_iter_check %s)" % self.e(s.iter), it, loop)
+
+    def while_(self, s, after, ctx):
+        """`while test: body [else: orelse]` by recursion on explicit fuel (Base/Py2.v: pywhile2).  The function's
+        spec must declare the extra parameter ("fuel", "nat"): fuel is not a Python value, it bounds the number of
+        iterations the embedding follows; when it runs out the result is PErr (never a normal-looking answer), so a
+        theorem about the translation has to quantify over fuel that suffices ("forall fuel, measure < fuel -> ...")."""
+        if ("fuel", "nat") not in [tuple(x) for x in self.spec.get("extra_params", [])]:
+            raise Untranslatable("while loop: the spec must declare extra_params [('fuel', 'nat')]")
+        names = self.names(s.body)
+        S = clist([ident(x) for x in names])
+        st, r, n = (self.fresh(p) for p in ("st", "r", "n"))
+        ctxb = Ctx("loop", lambda nn: "(ExcS %s %s)" % (nn, S), False, loop_state=S, cur_exc=ctx.cur_exc)
+        body = self.block(s.body, "(NextS %s)" % S, ctxb)
+        test = self.e(s.test)
+        els = self.block(s.orelse, after, ctx)
+        has_break = any(isinstance(b, ast.Break) for b in _own_loop_nodes(s.body))
+        brk = "BrkS %s => match %s with %s => %s | _ => %s end" % (st, st, S, after, ctx.err) if has_break else "BrkS _ => %s" % ctx.err
+        return ("(match pywhile2 fuel %s (fun %s => match %s with %s => %s | _ => PErr end)\n"
+                " (fun %s => match %s with %s =>\n %s\n | _ => RetS PErr end) with\n"
+                " | NextS %s => match %s with %s => %s | _ => %s end\n | %s\n | RetS %s => %s\n"
+                " | ExcS %s %s => match %s with %s => %s | _ => %s end\n end)") % (
+            S, st, st, S, test,
+            st, st, S, textwrap.indent(body, " "),
+            st, st, S, els, ctx.err, brk, r, r if ctx.mode == "fun" else "(RetS %s)" % r,
+            n, st, st, S, ctx.handler(n), ctx.err)
 
     def used_outside(self, name, loop):
         """Is the loop variable mentioned anywhere outside the loop body (then it is part of the carried state)?"""
